@@ -25,6 +25,7 @@ EXPLANATION = (
     "helper class imported from another rule module is itself free of class-level state; R12f (=R14a) the life-cycle "
     "order holds whichever rules are enabled; R12g the pragma tables shared by all rules are written only when a file "
     "starts and when its pragmas are compiled, never while failures are reported. "
+    "R12k (=R07m) no length guard admits the index it protects (a rule raising IndexError aborts the file's scan and the other rules' reports are lost); "
     "R12i (=R14k) a scan tokenizes whatever the enabled rules implement; R12j no rule reads the plugin manager (the set of enabled rules) through its context. Not decided: value-level interference through objects reachable from tokens that are shared by reference."
 )
 ASSUMPTIONS = ["rule code reaches tokens only through the callback arguments and its own fields (no global token registry exists: R12a)"]
@@ -493,6 +494,10 @@ def run(ctx: Context) -> None:
     c14.r14_tokenizer_calls(ctx, "R12i")
     r12e(ctx)
     r12j(ctx)
+    from sa.rules import c07
+
+    # a rule that raises inside a callback aborts the file's scan: the other rules' reports for that file are lost
+    c07.length_guard_admits_index(ctx, "R12k")
     from sa.raises import RaiseAnalysis
 
     # a rule's callbacks must not depend on which other rules are enabled: the life-cycle order holds
